@@ -29,7 +29,7 @@ PARAMS = {"PM6_SP": ["U_ss", "U_pp", "zeta_s", "zeta_p", "beta_s", "beta_p", "g_
           "PM3": ["U_ss", "U_pp", "zeta_s", "zeta_p", "beta_s", "beta_p", "g_ss", "g_sp", "g_pp", "g_p2", "h_sp", "alpha", "Gaussian1_K", "Gaussian2_L", "Gaussian2_M"]}
 
 
-def _setup(names, method, param, mode, converger=None):
+def _setup(names, method, param, mode, converger=None, uhf=False, bw_eps=1e-11, eps=1e-11):
     import torch
 
     from seqm.basics import Energy
@@ -37,13 +37,14 @@ def _setup(names, method, param, mode, converger=None):
     from seqm.seqm_functions.constants import Constants
 
     s, x, ch, mu = esh.batch(names)
-    base_sp = esh.settings(method=method, eps=1e-11, converger=[1])
+    base_sp = esh.settings(method=method, eps=1e-11, converger=[1], uhf=uhf)
     with contextlib.redirect_stdout(io.StringIO()):
-        m0 = Molecule(Constants(), dict(base_sp), torch.as_tensor(x), torch.as_tensor(s))
+        m0 = Molecule(Constants(), dict(base_sp), torch.as_tensor(x), torch.as_tensor(s), **({"mult": torch.as_tensor(np.asarray(mu), dtype=torch.float64)} if uhf else {}))
     p0 = m0.parameters[param].detach().clone()
-    sp = esh.settings(method=method, eps=1e-11, converger=list(converger or [1]), learned=[param], scf_backward=mode, scf_backward_eps=1e-11)
+    sp = esh.settings(method=method, eps=eps, converger=list(converger or [1]), learned=[param], scf_backward=mode, scf_backward_eps=bw_eps, uhf=uhf)
     with contextlib.redirect_stdout(io.StringIO()):
-        mol = Molecule(Constants(), sp, torch.as_tensor(x), torch.as_tensor(s), learned_parameters={param: p0.clone()})
+        mol = Molecule(Constants(), sp, torch.as_tensor(x), torch.as_tensor(s), learned_parameters={param: p0.clone()},
+                       **({"mult": torch.as_tensor(np.asarray(mu), dtype=torch.float64)} if uhf else {}))
         en = Energy(sp)
     return mol, en, p0, sp
 
@@ -60,12 +61,15 @@ def _outputs(mol, en, learned, which):
     if which == "gap":
         return e_gap.sum()
     if which == "homo":
+        if e.dim() == 3:     # unrestricted: highest occupied alpha orbital
+            return e[0, 0, int(mol.nocc[0, 0]) - 1]
         no = int(mol.nocc[0])
         return e[0, no - 1]
     if which == "charges":
         tore = mol.const.tore[mol.species]
         n = mol.species.shape[1]
-        q = tore - P.diagonal(dim1=1, dim2=2).reshape(P.shape[0], n, 4).sum(-1)
+        Pt = P if P.dim() == 3 else P.sum(dim=1)
+        q = tore - Pt.diagonal(dim1=1, dim2=2).reshape(Pt.shape[0], n, 4).sum(-1)
         w = torch.arange(1, n + 1, dtype=q.dtype)
         return (q * w).sum()
     raise ValueError(which)
@@ -75,7 +79,8 @@ def probe_param_grad(inp: Dict[str, Any]) -> Dict[str, Any]:
     import torch
 
     names, method, param, mode, which = inp["names"], inp["method"], inp["param"], inp["mode"], inp["output"]
-    mol, en, p0, sp = _setup(names, method, param, mode, converger=inp.get("converger"))
+    mol, en, p0, sp = _setup(names, method, param, mode, converger=inp.get("converger"), uhf=bool(inp.get("uhf")), bw_eps=float(inp.get("bw_eps", 1e-11)))
+    wgt = float(inp.get("weight", 1.0))      # loss = weight * output: the gradient is linear in the weight, however small the upstream gradient
     bad: List[str] = []
     kinds = set()
     leaf = inp.get("leaf", True)
@@ -94,7 +99,8 @@ def probe_param_grad(inp: Dict[str, Any]) -> Dict[str, Any]:
     if not y.requires_grad:
         return {"ok": False, "observed": [f"{which} does not depend on the caller's {param} tensor in the autograd graph (requires_grad=False)"], "expected": "gradient reaches the caller's tensor", "predicate": "",
                 "fields": {"kinds": ["detached"], "param": param, "mode": mode, "output": which, "leaf": leaf, "warm": bool(inp.get("warm"))}}
-    (g,) = torch.autograd.grad(y, base, allow_unused=True)
+    (g,) = torch.autograd.grad(y * wgt, base, allow_unused=True)
+    g = None if g is None else g / wgt
     # None = the output does not depend on this parameter in the graph (e.g. orbital energies on the core-core alpha): a zero gradient, checked against FD below
     g = np.zeros(len(p0)) if g is None else g.detach().numpy()
     # density-dependent outputs need scf_backward >= 1; with mode 0 only energies are expected to be right (Hellmann-Feynman)
@@ -119,6 +125,26 @@ def probe_param_grad(inp: Dict[str, Any]) -> Dict[str, Any]:
     return {"ok": not bad, "observed": bad[:4], "expected": "autograd = finite difference", "predicate": "central FD, h = 1e-4 max(1,|p|)",
             "fields": {"kinds": sorted(kinds), "param": param, "mode": mode, "output": which, "leaf": leaf, "method": method,
                        "density_dependent": which in ("gap", "homo", "charges")}}
+
+
+def probe_grad_linearity(inp: Dict[str, Any]) -> Dict[str, Any]:
+    """reverse-mode gradients are linear in the upstream gradient: grad(w * L) = w * grad(L) for any positive weight w, at an ordinary SCF threshold
+    (the implicit backward pass solves a linear system iteratively and stops on a tolerance tied to that threshold: the stop test has to be relative)"""
+    import torch
+
+    names, method, param, mode, which, w = inp["names"], inp["method"], inp["param"], inp["mode"], inp["output"], float(inp["weight"])
+    gs = []
+    for wgt in (1.0, w):
+        mol, en, p0, sp = _setup(names, method, param, mode, converger=inp.get("converger"), eps=float(inp["eps"]), bw_eps=float(inp["eps"]))
+        base = p0.clone().requires_grad_(True)
+        y = _outputs(mol, en, {param: base}, which)
+        (g,) = torch.autograd.grad(y * wgt, base, allow_unused=True)
+        gs.append(np.zeros(len(p0)) if g is None else (g / wgt).detach().numpy())
+    scale = float(np.abs(gs[0]).max())
+    d = float(np.abs(gs[0] - gs[1]).max())
+    ok = d <= 2e-3 * scale + 1e-12
+    return {"ok": ok, "observed": [] if ok else [f"grad({w:g} * {which}) / {w:g} differs from grad({which}) by {d:.3e} (largest component {scale:.3e}, scf_eps {inp['eps']:g})"],
+            "expected": "gradient linear in the loss weight", "predicate": "|g_w / w - g_1| <= 2e-3 max|g_1|", "fields": {"kinds": [] if ok else ["linearity"], "mode": mode, "output": which, "method": method}}
 
 
 def probe_geometry_dependent_params(inp: Dict[str, Any]) -> Dict[str, Any]:
@@ -214,7 +240,7 @@ def probe_hessian(inp: Dict[str, Any]) -> Dict[str, Any]:
     return {"ok": not bad, "observed": bad, "expected": "symmetric Hessian = FD of forces", "predicate": "", "fields": {"kinds": ["hessian"] if bad else []}}
 
 
-PROBES = {"param_grad": probe_param_grad, "geometry_dependent_params": probe_geometry_dependent_params, "hessian": probe_hessian}
+PROBES = {"grad_linearity": probe_grad_linearity, "param_grad": probe_param_grad, "geometry_dependent_params": probe_geometry_dependent_params, "hessian": probe_hessian}
 
 
 def gen_cases(ctx: Ctx):
@@ -234,6 +260,18 @@ def gen_cases(ctx: Ctx):
                                  "leaf": bool(rng.integers(0, 2)), "atoms": [1, 2] if False else [0, 1]}))
     # re-used objects: gradient taken on the second/third call on the same Molecule (density-dependent outputs with the implicit/unrolled backward)
     cases.append(("param_grad", {"names": ["h2o"], "method": "AM1", "param": "U_ss", "mode": 1, "output": "homo", "leaf": True, "warm": 1}))
+    # unrestricted references x backward modes x density-dependent outputs (radicals: the two spin densities differ)
+    ucases = [("oh", "AM1", "g_ss", 1, "charges"), ("no", "PM3", "U_pp", 1, "homo"), ("oh", "PM3", "g_p2", 2, "charges"), ("o2", "MNDO", "beta_p", 1, "gap"), ("no", "AM1", "g_pp", 0, "Etot")]
+    for j in range(len(ucases) if ctx.thorough else 2):
+        nm, meth, par, mode, outp = ucases[(j + 2 * ctx.seed) % len(ucases)] if not ctx.thorough else ucases[j]
+        cases.append(("param_grad", {"names": [nm], "method": meth, "param": par, "mode": mode, "output": outp, "leaf": True, "uhf": True}))
+    for j in range(3 if ctx.thorough else 1):
+        cases.append(("grad_linearity", {"names": [str(rng.choice(["ch2o", "h2o", "nh3"]))], "method": str(rng.choice(["AM1", "PM3"])), "param": str(rng.choice(["g_ss", "U_ss", "beta_s"])), "mode": 1,
+                                         "output": str(rng.choice(["gap", "charges", "homo"])), "weight": float(rng.choice([1e-5, 1e-6])), "eps": 1e-6, "converger": [[2], [1]][j % 2]}))
+    # a SMALL upstream gradient (a task weight, a mean over a batch): the gradient must scale with it (implicit backward solvers stop on a relative test)
+    for j in range(3 if ctx.thorough else 1):
+        cases.append(("param_grad", {"names": [str(rng.choice(["h2o", "nh3", "hcn"]))], "method": str(rng.choice(["AM1", "PM3"])), "param": str(rng.choice(["g_ss", "U_ss", "beta_s"])), "mode": 1,
+                                     "output": str(rng.choice(["gap", "charges", "homo"])), "leaf": True, "weight": float(rng.choice([1e-5, 1e-6])), "bw_eps": 1e-7}))
     cases.append(("param_grad", {"names": [str(rng.choice(["nh3", "ch2o", "hcn"]))], "method": str(rng.choice(["PM3", "MNDO"])), "param": str(rng.choice(["beta_s", "U_pp", "g_ss"])), "mode": int(rng.choice([1, 2])),
                                  "output": str(rng.choice(["homo", "gap"])), "leaf": bool(rng.integers(0, 2)), "warm": 2, "atoms": [0, 1]}))
     # elements whose hpp = (g_pp - g_p2)/2 lies below the 0.1 eV floor used by the integrals (PM3 Cl, PM6_SP F): the floor must be differentiated consistently
